@@ -339,6 +339,11 @@ def oracle(ctx, o, first_only=False):
         hs = hh.hash("password")
         lp_muts = structural_mutants(hs, rng, ctx.thorough)[: (80 if not ctx.thorough else None)]
         lp_muts = sorted(set(lp_muts) | separator_shifts(hs))
+        # a mutant whose cost field is a VALID but enormous cost (sha-crypt admits 999 999 999 rounds) would really be computed: that is hours of
+        # legitimate work, not an unbounded call — leave those out (the watchdog reported one as a violation in the thorough tier: a false alarm)
+        import re as _re2
+
+        lp_muts = [m for m in lp_muts if not _re2.search(r"rounds=0*[1-9][0-9]{5,}\$", m)]
         if "PBKDF2" in type(hh).__name__:
             lp_muts = list(lp_muts) + [hs.replace("$2$", "$" + v + "$", 1) for v in huge]
         for m in lp_muts:
